@@ -3,7 +3,7 @@
    the chain hypotheses of SafeProofs for every parser built without the HTML plugin. *)
 From Coq Require Import String Permutation.
 From MdIt Require Import Prims Tables Ruler Tree Render Block Inline Core Dispatch RulerProofs RulerRefine CacheProofs PairsProofs.
-From MdIt Require SafeProofs LineProofs InlineDepthProofs TreeDepthProofs LinkSafeProofs LinkAllProofs.
+From MdIt Require SafeProofs LineProofs InlineDepthProofs TreeDepthProofs LinkSafeProofs LinkAllProofs PlaceProofs RenderTotalProofs.
 From Coq Require Import Lia.
 Local Open Scope list_scope.
 Local Open Scope N_scope.
@@ -295,3 +295,78 @@ Qed.
 Theorem shipped_urls_safe cfg nest fuel src d : snd (parse fuel (build_md cfg nest) src) = inr d ->
   LinkSafeProofs.raw_free LinkAllProofs.url_safe (d_root d) = true.
 Proof. apply LinkAllProofs.parse_urls_safe. apply emph_links. apply build_md_pairs_emph. Qed.
+
+(* ------------------------------------------------------------------ *)
+(* C14: a parser built with the paragraph plugin (letter p, or the composite C) runs the paragraph rule *)
+
+Lemma r_iter_vals_complete r chain : coherent r -> snd (r_iter r) = inr chain -> incl (vals r) chain.
+Proof.
+  intros Hc. destruct (iter_spec r Hc) as (-> & _). unfold clear. rewrite r_iter_fresh.
+  destruct (requires_ok _); [|discriminate]. destruct (greedy_rank (deps r)) as [o|] eqn:G; [|discriminate].
+  intros H. injection H as <-. destruct (greedy_sound _ _ G) as [P _].
+  intros v Hv. unfold vals in Hv. apply in_map_iff in Hv. destruct Hv as (d & <- & Hd). apply In_nth_error in Hd. destruct Hd as [i Hi].
+  apply in_map_iff. exists i. rewrite Hi. split; [reflexivity|]. apply (Permutation_in _ (Permutation_sym P)). apply in_seq.
+  split; [lia|]. cbn. apply nth_error_Some. rewrite Hi. discriminate.
+Qed.
+
+Lemma blk_inline_add m id mk f : md_block (inline_add_rule m id mk f) = md_block m.
+Proof. unfold inline_add_rule. destruct (mk =? 0); reflexivity. Qed.
+Lemma blk_link_end m : md_block (add_link_end m) = md_block m.
+Proof. unfold add_link_end. destruct (r_contains _ _); [reflexivity|apply blk_inline_add]. Qed.
+Lemma blk_emph m marker l id k : md_block (emph_add_with m marker l id k) = md_block m.
+Proof.
+  unfold emph_add_with. destruct (pairs_get (md_pairs m) marker) as [inserted fns]. set (m1 := with_pairs m _).
+  assert (E : md_block (if inserted then m1 else add_inline m1 id) = md_block m) by (destruct inserted; [reflexivity|unfold add_inline; rewrite blk_inline_add; reflexivity]).
+  destruct (r_contains _ _); [exact E|]. exact E.
+Qed.
+Lemma blk_block_add v m id f : vpres f -> In v (vals (md_block m)) -> In v (vals (md_block (block_add_rule m id f))).
+Proof. intros Hf H. unfold block_add_rule. cbn [md_block with_block]. rewrite Hf, vals_add. apply in_or_app. left. exact H. Qed.
+
+Lemma add_plugin_blk_mono m c v : In v (vals (md_block m)) -> In v (vals (md_block (add_plugin m c))).
+Proof.
+  intros H. unfold add_plugin.
+  repeat match goal with |- context [if ?x =? ?k then _ else _] => destruct (x =? k) end.
+  all: try exact H.
+  all: cbn [with_fence_prefix md_block]; rewrite ?blk_link_end, ?blk_emph; unfold add_inline; rewrite ?blk_inline_add; try exact H.
+  all: try (apply blk_block_add; [auto with vp|exact H]).
+Qed.
+Lemma fold_add_plugin_blk_mono cs : forall m v, In v (vals (md_block m)) -> In v (vals (md_block (fold_left add_plugin cs m))).
+Proof. induction cs as [|c t IH]; intros m v H; [exact H|]. cbn [fold_left]. apply IH. apply add_plugin_blk_mono. exact H. Qed.
+Lemma add_plugins_blk_mono cs : forall m v, In v (vals (md_block m)) -> In v (vals (md_block (add_plugins m cs))).
+Proof.
+  unfold add_plugins. induction cs as [|c t IH]; intros m v H; [exact H|]. cbn [fold_left]. apply IH.
+  destruct (c =? 67); [apply fold_add_plugin_blk_mono; exact H|]. destruct (c =? 87); [apply fold_add_plugin_blk_mono; exact H|]. apply add_plugin_blk_mono. exact H.
+Qed.
+
+Lemma add_plugin_para m : In R_PARA (vals (md_block (add_plugin m 112))).
+Proof. change (add_plugin m 112) with (block_add_rule m R_PARA r_after_all). unfold block_add_rule. cbn [md_block with_block]. rewrite vpres_after_all, vals_add. apply in_or_app. right. left. reflexivity. Qed.
+
+Definition para_cfg (cfg : str) : bool := existsb (fun c => (c =? 112) || (c =? 67)) cfg.
+
+Lemma add_plugins_para cs : para_cfg cs = true -> forall m, In R_PARA (vals (md_block (add_plugins m cs))).
+Proof.
+  unfold add_plugins, para_cfg. induction cs as [|c t IH]; intros H m; [discriminate H|]. cbn [existsb fold_left] in *.
+  destruct ((c =? 112) || (c =? 67)) eqn:Ec.
+  - apply (add_plugins_blk_mono t). destruct (N.eqb_spec c 67) as [->|Hn].
+    + change (fold_left add_plugin (bs "nebmliatcfqhurHLp") m) with (add_plugin (fold_left add_plugin (bs "nebmliatcfqhurHL") m) 112). apply add_plugin_para.
+    + destruct (N.eqb_spec c 112) as [->|Hn2]; [|discriminate Ec]. cbn. apply add_plugin_para.
+  - apply IH. exact H.
+Qed.
+
+Theorem build_md_has_para cfg nest bc : para_cfg cfg = true ->
+  snd (r_iter (md_block (build_md cfg nest))) = inr bc -> In R_PARA bc.
+Proof.
+  intros Hc Hb. destruct (build_md_coherent cfg nest) as (Cb & _). eapply r_iter_vals_complete; [exact Cb|exact Hb|].
+  unfold build_md. apply add_plugins_para. unfold para_cfg in *. apply existsb_exists in Hc. destruct Hc as (c & Hin & Hc).
+  apply existsb_exists. exists c. split; [|exact Hc]. apply filter_In. split; [exact Hin|].
+  apply orb_true_iff in Hc. destruct Hc as [Hc|Hc]; apply N.eqb_eq in Hc; subst c; reflexivity.
+Qed.
+
+(* the placement rules for every parser built from the shipped plugins with the paragraph plugin, any input, any core chain *)
+Theorem shipped_placed cfg nest fuel src d : para_cfg cfg = true ->
+  snd (parse fuel (build_md cfg nest) src) = inr d ->
+  PlaceProofs.placed (d_root d) = true /\ n_kind (d_root d) = KRoot.
+Proof.
+  intros Hc Hd. destruct (parse_ok_chains _ _ _ _ Hd) as (bc & ic & Hb & Hi).
+  eapply RenderTotalProofs.parse_placed; [apply build_md_pairs_emph|exact Hb|eapply build_md_has_para; eassumption|exact Hd].
+Qed.
